@@ -25,6 +25,7 @@ var stringPool = []string{
 	"", "a", "hello world", "100%", "a/b", "x:y", "ü", "日本語", "\U0001F600", `"quoted"`, `back\slash`,
 	"line\nbreak\ttab", "\x00nul", "a+b", "q?x=1&y=2", "#frag", "semi;colon", "%41", "%2F", "%zz", " lead", "trail ",
 	"ÿ", " ", "<tag>&amp;", "null", "true", "-0", "1e3", "{}", "[1]", "comma,comma", "eq=eq", "*", "**", "{x}",
+	"del\x7fchar", "\x1fus\x01", "~tilde~",
 }
 
 var int64Pool = []int64{0, 1, -1, 2, 127, 128, 255, 256, 32767, 65535, math.MaxInt32, math.MinInt32, math.MaxInt32 + 1,
